@@ -197,6 +197,20 @@ def r3(ctx):
         # the dispatch in write_typed_range goes through promote
     wb = prog.body("range::static_db::StaticDatabase::write_typed_range")
     ctx.check(bool(call_sites(wb, r"StaticVariation.*::promote$|::promote$")), "promote:used", "write_typed_range chooses the variation through promote()", wb.where(line=wb.line))
+    # the flags that decide "packed or with flags" are the flags of the very value that is written: deciding on one copy of the point
+    # (current) and writing another (selected) sends a non-ONLINE value in a packed format
+    ws_ = ctx.sym(wb)
+    pr = call_sites(wb, r"StaticVariation.*::promote$|::promote$")
+    wr = call_sites(wb, r"RangeWriter<.*>::write$|RangeWriter::write$")
+    gw = call_sites(wb, r"::get_write_info$")
+    if len(pr) != 1 or len(wr) != 1:
+        raise AnchorError("write_typed_range: promote/write sites (%d/%d)" % (len(pr), len(wr)))
+    judged = strip_passthrough(ws_.call_expr(pr[0].term)[2][1])
+    written = strip_passthrough(ws_.call_expr(wr[0].term)[2][3])
+    ctx.check(judged == written, "promote:judges-the-written-value", "promote(%s) / write(.., %s, ..)" % (expr_str(judged)[-40:], expr_str(written)[-40:]), wb.where(pr[0].idx), bad_detail="the variation is promoted on `%s` but the value written is `%s`: a point whose written flags are not plainly ONLINE can go out in a packed variation" % (expr_str(judged)[-60:], expr_str(written)[-60:]))
+    for c_ in gw:
+        a_ = strip_passthrough(ws_.call_expr(c_.term)[2][1])
+        ctx.check(a_ == written, "promote:write-info-of-the-written-value", "get_write_info(%s)" % expr_str(a_)[-40:], wb.where(c_.idx))
     c = prog.const("app::measurement::Flags::ONLINE")
     ctx.check(c.get("v") == 1, "Flags::ONLINE", "Flags::ONLINE = %s" % c.get("v"))
 
